@@ -9,9 +9,11 @@ opens = parts[1]
 seeded = parts[2] if len(parts) > 2 else ""
 p = os.path.join(R, "DESIGN.md")
 s = open(p).read()
-s = re.sub(r"<!-- TABLES:BEGIN -->.*?<!-- TABLES:END -->", "<!-- TABLES:BEGIN -->\n" + findings + "\n\n" + opens + "\n<!-- TABLES:END -->", s, flags=re.S)
+rep1 = "<!-- TABLES:BEGIN -->\n" + findings + "\n\n" + opens + "\n<!-- TABLES:END -->"
+s = re.sub(r"<!-- TABLES:BEGIN -->.*?<!-- TABLES:END -->", lambda m: rep1, s, flags=re.S)
 if "<!-- SEEDED:BEGIN -->" not in s:
     s = s.replace("The table is generated from `seeded/*/meta.json`.\n", "The table is generated from `seeded/*/meta.json`.\n\n<!-- SEEDED:BEGIN -->\n<!-- SEEDED:END -->\n")
-s = re.sub(r"<!-- SEEDED:BEGIN -->.*?<!-- SEEDED:END -->", "<!-- SEEDED:BEGIN -->\n" + seeded.strip() + "\n<!-- SEEDED:END -->", s, flags=re.S)
+rep2 = "<!-- SEEDED:BEGIN -->\n" + seeded.strip() + "\n<!-- SEEDED:END -->"
+s = re.sub(r"<!-- SEEDED:BEGIN -->.*?<!-- SEEDED:END -->", lambda m: rep2, s, flags=re.S)
 open(p, "w").write(s)
 print("DESIGN.md tables updated")
